@@ -264,6 +264,11 @@ def case_job(rep):
                         if custom:
                             run.compare("files.job", "clause=custom-point-data", maxabs(pd["Twice"] - 2 * u3), 0.0, "%s: custom point data differ" % label, unit="job:custom-data")
                         continue
+                    missing = [k_ for k_ in ("Displacement",) if k_ not in pd] + [k_ for k_ in ("Deformation Gradient", "Logarithmic Strain", "Principal Values of Logarithmic Strain") if k_ not in cd]
+                    if missing:
+                        # the documented default data are written next to the caller's own data
+                        run.fail("files.job", "clause=default-data-present", "%s: frame %d lacks the default data %s" % (label, k, missing))
+                        continue
                     run.compare("files.job", "clause=frame-displacement", maxabs(pd["Displacement"] - u3), 0.0,
                                 "%s: 'Displacement' of frame %d differs from the field of converged substep %d" % (label, k, k),
                                 unit="job:displacement", config=("displacement", kind))
